@@ -182,13 +182,23 @@ func (s *Session) SubSeed(name string) uint64 {
 	return v
 }
 
-func (s *Session) SetRule(rule string)       { s.mu.Lock(); s.rule = rule; s.mu.Unlock() }
-func (s *Session) SetExhaustive(b bool)      { s.mu.Lock(); s.exhaustive = &b; s.mu.Unlock() }
-func (s *Session) SetExtra(k string, v any)  { s.mu.Lock(); s.extra[k] = v; s.mu.Unlock() }
-func (s *Session) Note(f string, a ...any)   { s.mu.Lock(); s.notes = append(s.notes, fmt.Sprintf(f, a...)); s.mu.Unlock() }
-func (s *Session) Inconclusive()             { s.mu.Lock(); s.inconclusive++; s.mu.Unlock() }
-func (s *Session) Class(classes ...string)   { s.mu.Lock(); for _, c := range classes { s.classes[c]++ }; s.mu.Unlock() }
-func (s *Session) ClassN(c string, n int64)  { s.mu.Lock(); s.classes[c] += n; s.mu.Unlock() }
+func (s *Session) SetRule(rule string)      { s.mu.Lock(); s.rule = rule; s.mu.Unlock() }
+func (s *Session) SetExhaustive(b bool)     { s.mu.Lock(); s.exhaustive = &b; s.mu.Unlock() }
+func (s *Session) SetExtra(k string, v any) { s.mu.Lock(); s.extra[k] = v; s.mu.Unlock() }
+func (s *Session) Note(f string, a ...any) {
+	s.mu.Lock()
+	s.notes = append(s.notes, fmt.Sprintf(f, a...))
+	s.mu.Unlock()
+}
+func (s *Session) Inconclusive() { s.mu.Lock(); s.inconclusive++; s.mu.Unlock() }
+func (s *Session) Class(classes ...string) {
+	s.mu.Lock()
+	for _, c := range classes {
+		s.classes[c]++
+	}
+	s.mu.Unlock()
+}
+func (s *Session) ClassN(c string, n int64) { s.mu.Lock(); s.classes[c] += n; s.mu.Unlock() }
 
 func canon(c any) []byte {
 	switch v := c.(type) {
